@@ -586,7 +586,7 @@ def run(ctx):
     ctx.evaluations += res1["executed"] + res2["executed"] + res3["executed"]
     # ------------------------------------------------------------ code -> spec, second level: the implementation-shaped spec itself
     if hooks:
-        lim = (400, 300) if thorough else (28, 14)
+        lim = (400, 200) if thorough else (28, 14)
         iv = {"scripts": impl_validate(ctx, t1, "scripts", lim[0], kinds_of["scripts"]),
               "random": impl_validate(ctx, t2, "random", lim[1], kinds_of["random"])}
         ctx.extra["impl_trace_validation"] = iv
@@ -602,7 +602,8 @@ def run(ctx):
         repro = {name: (kind in by_scenario.get(name, ())) for name, kind in EXPECT.items()}
         ctx.extra["directed_reproduced"] = repro
         known_open = {k["id"] for k in ctx._known if k.get("status") == "known"}
-        missing = [n_ for n_, ok in repro.items() if not ok]
+        # (D2 is repaired in /repo: its schedule is kept as a regression schedule and is expected NOT to reproduce any more)
+        missing = [n_ for n_, ok in repro.items() if not ok and not (n_ == "D2-chunk-aborted" and "C06-D2-chunk-aborted" not in known_open)]
         if missing and known_open:
             ctx.extra["note"] = "directed schedules that did not reproduce their deviation in this run: %s" % missing
     else:
